@@ -1,6 +1,7 @@
 package model
 
 import (
+	"fmt"
 	"strconv"
 	"strings"
 )
@@ -23,6 +24,50 @@ type Style struct {
 	// OneLine writes the whole schema on one line; only note-only annotations in the /* */ form
 	// are possible then (a rule needs its node alone on the line), rules are not written.
 	OneLine bool
+	// LitEscapes: string examples are written with \uXXXX escapes (non-ASCII characters, and the
+	// letters a and e now and then): the same strings, another spelling.
+	LitEscapes bool
+}
+
+// RespellLit rewrites a JSON string literal: characters outside existing escape sequences become
+// \uXXXX escapes (every non-ASCII character, every second "a" / "e"); the decoded string is the same.
+func RespellLit(lit string) string {
+	if len(lit) < 2 || lit[0] != '"' {
+		return lit
+	}
+	var sb strings.Builder
+	rs := []rune(lit)
+	flip := false
+	for i := 0; i < len(rs); i++ {
+		c := rs[i]
+		switch {
+		case c == '\\' && i+1 < len(rs):
+			sb.WriteRune(c)
+			i++
+			sb.WriteRune(rs[i])
+			for k := 0; rs[i-k] == 'u' && k < 4 && i+1 < len(rs); k++ { // the four digits of \uXXXX
+				i++
+				sb.WriteRune(rs[i])
+			}
+		case c == 0xFFFD:
+			sb.WriteRune(c) // may stand for bytes that are not UTF-8: left alone
+		case c > 0xFFFF:
+			c -= 0x10000
+			fmt.Fprintf(&sb, "\\u%04x\\u%04X", 0xD800+(c>>10), 0xDC00+(c&0x3FF))
+		case c > 0x7F:
+			fmt.Fprintf(&sb, "\\u%04x", c)
+		case c == 'a' || c == 'e':
+			flip = !flip
+			if flip {
+				fmt.Fprintf(&sb, "\\u%04X", c)
+			} else {
+				sb.WriteRune(c)
+			}
+		default:
+			sb.WriteRune(c)
+		}
+	}
+	return sb.String()
 }
 
 type renderer struct {
@@ -148,7 +193,11 @@ func (r *renderer) node(n *Node, level int, comma bool) {
 		r.sb.WriteString(n.RefText())
 		r.tail(n, comma, level)
 	default:
-		r.sb.WriteString(n.Lit)
+		if n.Kind == KString && r.on(r.st.LitEscapes) {
+			r.sb.WriteString(RespellLit(n.Lit))
+		} else {
+			r.sb.WriteString(n.Lit)
+		}
 		r.tail(n, comma, level)
 	}
 }
